@@ -1,4 +1,6 @@
 """C12 — compiler-introduced names are reserved (`hy` / `_hy_…`) and fresh."""
+CANON = True
+
 import ast
 import re
 
